@@ -327,6 +327,219 @@ async fn server_conn_task(builder: h3::server::Builder, mb: Mailbox, ctx: Ctx) {
                 ctx.log(&name, "D", "ok".into());
                 return;
             }
+            // accept the next request, resolve it and accept it as a WebTransport session;
+            // the session takes the connection over
+            "WT" => {
+                ctx.begin(&name, "WT");
+                let resolver = match conn.accept().await {
+                    Ok(Some(r)) => r,
+                    Ok(None) => {
+                        ctx.log(&name, "WT", "none".into());
+                        continue;
+                    }
+                    Err(e) => {
+                        ctx.log(&name, "WT", format!("err:{}", render_conn_err(&e)));
+                        continue;
+                    }
+                };
+                let sid = resolver.frame_stream.id().into_inner();
+                let (req, st) = match resolver.resolve_request().await {
+                    Ok(x) => x,
+                    Err(e) => {
+                        ctx.log(&name, "WT", format!("res:{}:{}", sid, render_stream_err(&e)));
+                        continue;
+                    }
+                };
+                match h3_webtransport::server::WebTransportSession::accept(req, st, conn).await {
+                    Ok(sess) => {
+                        ctx.log(&name, "WT", format!("ok:connect={}:session={}", sid, session_num(&sess.session_id())));
+                        return wt_session_task(sess, mb, ctx).await;
+                    }
+                    Err(e) => {
+                        ctx.log(&name, "WT", format!("accept:{}:{}", sid, render_stream_err(&e)));
+                        return;
+                    }
+                }
+            }
+            _ => ctx.log(&name, op, "bad-cmd".into()),
+        }
+    }
+}
+
+// ------------------------------------------------------------------ WebTransport (server)
+
+type WtSession = h3_webtransport::server::WebTransportSession<SimConn, Bytes>;
+
+fn session_num(s: &h3::webtransport::SessionId) -> String {
+    // the number is crate-private: take it from the Debug rendering `SessionId(<n>)`
+    format!("{:?}", s).chars().filter(|c| c.is_ascii_digit()).collect()
+}
+
+enum WtStream {
+    Bidi(h3_webtransport::stream::BidiStream<SimStream, Bytes>),
+    Send(h3_webtransport::stream::SendStream<SimStream, Bytes>),
+    Recv(h3_webtransport::stream::RecvStream<SimStream, Bytes>),
+}
+
+async fn wt_stream_task(name: String, mut st: WtStream, mb: Mailbox, ctx: Ctx) {
+    use h3::quic::{RecvStream as _, SendStream as _, SendStreamUnframed as _};
+    use std::future::poll_fn;
+    loop {
+        let cmd = NextCmd(mb.clone()).await;
+        let (op, arg) = cmd.split_once(':').unwrap_or((&cmd, ""));
+        match op {
+            "dr" => {
+                ctx.log(&name, "dr", "ok".into());
+                return;
+            }
+            "rd" => {
+                ctx.begin(&name, "rd");
+                let r = match &mut st {
+                    WtStream::Bidi(s) => Some(poll_fn(|cx| s.poll_data(cx)).await),
+                    WtStream::Recv(s) => Some(poll_fn(|cx| s.poll_data(cx)).await),
+                    WtStream::Send(_) => None,
+                };
+                let out = match r {
+                    None => "bad-cmd".to_string(),
+                    Some(Ok(Some(mut b))) => format!("data:{}", to_hex(&b.copy_to_bytes(b.remaining()))),
+                    Some(Ok(None)) => "end".into(),
+                    Some(Err(h3::quic::StreamErrorIncoming::StreamTerminated { error_code })) => format!("err:rterm:{}", error_code),
+                    Some(Err(_)) => "err:conn".into(),
+                };
+                ctx.log(&name, "rd", out);
+            }
+            "wr" => {
+                ctx.begin(&name, "wr");
+                let mut buf = Bytes::from(parse_hex(arg).unwrap_or_default());
+                let mut res = "ok".to_string();
+                while buf.has_remaining() {
+                    let r = match &mut st {
+                        WtStream::Bidi(s) => poll_fn(|cx| s.poll_send(cx, &mut buf)).await,
+                        WtStream::Send(s) => poll_fn(|cx| s.poll_send(cx, &mut buf)).await,
+                        WtStream::Recv(_) => {
+                            res = "bad-cmd".into();
+                            break;
+                        }
+                    };
+                    if let Err(e) = r {
+                        res = match e {
+                            h3::quic::StreamErrorIncoming::StreamTerminated { error_code } => format!("err:rterm:{}", error_code),
+                            _ => "err:conn".into(),
+                        };
+                        break;
+                    }
+                }
+                ctx.log(&name, "wr", res);
+            }
+            "fi" => {
+                ctx.begin(&name, "fi");
+                let r = match &mut st {
+                    WtStream::Bidi(s) => poll_fn(|cx| s.poll_finish(cx)).await.is_ok(),
+                    WtStream::Send(s) => poll_fn(|cx| s.poll_finish(cx)).await.is_ok(),
+                    WtStream::Recv(_) => false,
+                };
+                ctx.log(&name, "fi", if r { "ok".into() } else { "err".into() });
+            }
+            _ => ctx.log(&name, op, "bad-cmd".into()),
+        }
+    }
+}
+
+fn spawn_wt(ctx: &Ctx, id: u64, st: WtStream) {
+    let name = format!("w{}", id);
+    let mb: Mailbox = Default::default();
+    ctx.spawner.spawn(name.clone(), mb.clone(), Box::pin(wt_stream_task(name, st, mb, ctx.clone())));
+}
+
+async fn wt_session_task(sess: WtSession, mb: Mailbox, ctx: Ctx) {
+    use h3::quic::{RecvStream as _, SendStream as _};
+    use h3_webtransport::server::AcceptedBi;
+    let name = "conn".to_string();
+    let pick = |arg: &str, sess: &WtSession| -> h3::webtransport::SessionId {
+        match arg.parse::<u64>() {
+            Ok(n) => h3::webtransport::SessionId::try_from(n).unwrap_or(sess.session_id()),
+            Err(_) => sess.session_id(),
+        }
+    };
+    loop {
+        let cmd = NextCmd(mb.clone()).await;
+        let (op, arg) = cmd.split_once(':').unwrap_or((&cmd, ""));
+        match op {
+            "D" => {
+                ctx.log(&name, "D", "ok".into());
+                return;
+            }
+            "sid" => ctx.log(&name, "sid", session_num(&sess.session_id())),
+            "ab" => {
+                ctx.begin(&name, "ab");
+                let r = match sess.accept_bi().await {
+                    Ok(Some(AcceptedBi::BidiStream(sid, st))) => {
+                        let id = st.recv_id().into_inner();
+                        spawn_wt(&ctx, id, WtStream::Bidi(st));
+                        format!("bidi:session={}:stream={}", session_num(&sid), id)
+                    }
+                    Ok(Some(AcceptedBi::Request(req, st))) => {
+                        let id = st.id().into_inner();
+                        let qname = format!("q{}", id);
+                        let qmb: Mailbox = Default::default();
+                        ctx.spawner.spawn(qname.clone(), qmb.clone(), Box::pin(server_stream_task(qname, st, qmb, ctx.clone())));
+                        format!("req:{}:{}", id, render_request(&req))
+                    }
+                    Ok(None) => "none".into(),
+                    Err(e) => render_stream_err(&e),
+                };
+                ctx.log(&name, "ab", r);
+            }
+            "au" => {
+                ctx.begin(&name, "au");
+                let r = match sess.accept_uni().await {
+                    Ok(Some((sid, st))) => {
+                        let id = st.recv_id().into_inner();
+                        spawn_wt(&ctx, id, WtStream::Recv(st));
+                        format!("uni:session={}:stream={}", session_num(&sid), id)
+                    }
+                    Ok(None) => "none".into(),
+                    Err(e) => format!("err:{}", render_conn_err(&e)),
+                };
+                ctx.log(&name, "au", r);
+            }
+            "ob" => {
+                ctx.begin(&name, "ob");
+                let r = match sess.open_bi(pick(arg, &sess)).await {
+                    Ok(st) => {
+                        let id = st.send_id().into_inner();
+                        spawn_wt(&ctx, id, WtStream::Bidi(st));
+                        format!("ok:{}", id)
+                    }
+                    Err(e) => render_stream_err(&e),
+                };
+                ctx.log(&name, "ob", r);
+            }
+            "ou" => {
+                ctx.begin(&name, "ou");
+                let r = match sess.open_uni(pick(arg, &sess)).await {
+                    Ok(st) => {
+                        let id = st.send_id().into_inner();
+                        spawn_wt(&ctx, id, WtStream::Send(st));
+                        format!("ok:{}", id)
+                    }
+                    Err(e) => render_stream_err(&e),
+                };
+                ctx.log(&name, "ou", r);
+            }
+            "dgs" => {
+                let r = sess.datagram_sender().send_datagram(Bytes::from(parse_hex(arg).unwrap_or_default()));
+                ctx.log(&name, "dgs", if r.is_ok() { "ok".into() } else { "err".into() });
+            }
+            "dgr" => {
+                ctx.begin(&name, "dgr");
+                let mut rd = sess.datagram_reader();
+                let r = match rd.read_datagram().await {
+                    Ok(d) => format!("dg:{}:{}", d.stream_id().into_inner(), to_hex(d.payload())),
+                    Err(e) => render_stream_err(&e),
+                };
+                ctx.log(&name, "dgr", r);
+            }
             _ => ctx.log(&name, op, "bad-cmd".into()),
         }
     }
@@ -382,7 +595,12 @@ async fn client_send_task(mut snd: h3::client::SendRequest<SimOpen, Bytes>, mb: 
                 let uri = String::from_utf8(parse_hex(it.next().unwrap_or("-")).unwrap_or_default()).unwrap_or_default();
                 let hdrs = it.next().unwrap_or("-");
                 let mut req = http::Request::new(());
+                // `CONNECT+webtransport`: extended CONNECT with a :protocol
+                let (method, proto) = method.split_once('+').map(|(m, p)| (m, Some(p))).unwrap_or((method, None));
                 let built = (|| {
+                    if let Some(p) = proto {
+                        req.extensions_mut().insert(p.parse::<h3::ext::Protocol>().ok()?);
+                    }
                     *req.method_mut() = http::Method::from_bytes(method.as_bytes()).ok()?;
                     *req.uri_mut() = uri.parse::<http::Uri>().ok()?;
                     *req.headers_mut() = parse_headers(hdrs)?;
@@ -613,6 +831,13 @@ impl Run {
                 n.peer_stop(id, c);
                 true
             }
+            Some(b'd') if op.starts_with("d:") => match parse_hex(&op[2..]) {
+                Some(bytes) => {
+                    n.peer_datagram(Bytes::from(bytes));
+                    true
+                }
+                None => false,
+            },
             Some(b'C') => num(&op[1..]).map(|c| n.fail(ConnectionErrorIncoming::ApplicationClose { error_code: c })).is_some(),
             Some(b'T') if op == "T" => {
                 n.fail(ConnectionErrorIncoming::Timeout);
@@ -660,6 +885,10 @@ impl Run {
         }
         let closed: Vec<String> = n.closed.iter().map(|(c, _)| format!("{}", c)).collect();
         parts.push(format!("closed=[{}]", closed.join(",")));
+        if !n.dgram_tx.is_empty() {
+            let d: Vec<String> = n.dgram_tx.iter().map(|b| to_hex(b)).collect();
+            parts.push(format!("dgrams=[{}]", d.join(",")));
+        }
         let pend: Vec<String> = self.ctx.inflight.borrow().iter().map(|(t, o)| format!("{}.{}", t, o)).collect();
         parts.push(format!("pending=[{}]", pend.join(",")));
         parts.join(" ")
